@@ -61,9 +61,9 @@ theorem current_filename_has_rev (cff datetime : Str) (h : contains cff tREV = t
 
 /-- the configuration of the router model is well-formed (`Cfg.WF`) for every option set the tool
 accepts, for every file name it will ever compute -/
-theorem format_ok_cfg_wf (o : Opts) (topic pid cff datetime : Str) (hn : Except Str Str) (se : Bool) (mif : Nat)
+theorem format_ok_cfg_wf (o : Opts) (topic pid cff datetime : Str) (hn : Except Str Str) (se : Bool) (mif : Nat) (cc : Bool)
     (hok : computeFilenameFormat o topic hn pid = .ok cff) :
-    (cfgOf o (currentFilename cff datetime) se mif).WF := by
+    (cfgOf o (currentFilename cff datetime) se mif cc).WF := by
   unfold Nsq.Model.ToFile.Cfg.WF cfgOf
   by_cases hr : needsRev o = true
   · exact Or.inl (current_filename_has_rev _ _ (format_ok_has_rev o topic pid cff hn hok hr))
@@ -77,17 +77,17 @@ theorem format_ok_cfg_wf (o : Opts) (topic pid cff datetime : Str) (hn : Except 
 
 /-- `C19.no_overwrite` without the well-formedness hypothesis: for every option set accepted by
 `computeFilenameFormat`, pre-existing files survive every run of the router -/
-theorem no_overwrite_accepted (o : Opts) (topic pid cff datetime : Str) (hn : Except Str Str) (se : Bool) (mif : Nat)
+theorem no_overwrite_accepted (o : Opts) (topic pid cff datetime : Str) (hn : Except Str Str) (se : Bool) (mif : Nat) (cc : Bool)
     (hok : computeFilenameFormat o topic hn pid = .ok cff)
     (io : Nat → Nsq.Model.ToFile.Fault) (fs0 : Nsq.Model.ToFile.FS) (hdom : Nsq.Proofs.ToFile.DomOk fs0)
     (evs : List (Nsq.Model.ToFile.Ev × Bool)) (p : Nsq.Model.ToFile.Path) (f0 : Nsq.Model.ToFile.File)
     (hp : fs0.get p = some f0) :
-    let c := cfgOf o (currentFilename cff datetime) se mif
+    let c := cfgOf o (currentFilename cff datetime) se mif cc
     (p.out = true ∨ c.workDir = false →
       ∃ f, (Nsq.Model.ToFile.run c io (Nsq.Model.ToFile.init fs0) evs).fs.get p = some f ∧
         (∃ x, f.data = f0.data ++ x) ∧ f0.durable ≤ f.durable) ∧
     (c.excl = true → (Nsq.Model.ToFile.run c io (Nsq.Model.ToFile.init fs0) evs).fs.get p = some f0) :=
-  Nsq.Props.C19.no_overwrite _ (format_ok_cfg_wf o topic pid cff datetime hn se mif hok) io fs0 hdom evs p f0 hp
+  Nsq.Props.C19.no_overwrite _ (format_ok_cfg_wf o topic pid cff datetime hn se mif cc hok) io fs0 hdom evs p f0 hp
 
 /-- gzip output: the computed format, and every file name derived from it, ends in `.gz` -/
 theorem gzip_name_ends_gz (o : Opts) (topic pid cff datetime : Str) (hn : Except Str Str)
@@ -140,6 +140,6 @@ example : needsRev oPlain = false := by decide
 -- the overlap condition is not vacuous: "<REV>" and "V><" overlap, and then the occurrence can vanish ("<REV><" ↦ "<RE")
 example : noOverlap [60, 82, 69, 86, 62] [86, 62, 60] = false := by decide
 example : contains (replaceAll [60, 82, 69, 86, 62, 60] [86, 62, 60] []) [60, 82, 69, 86, 62] = false := by decide
-example : (cfgOf oRot [116, 46, 104, 60, 82, 69, 86, 62, 46, 50, 48, 50, 54, 46, 108, 111, 103, 46, 103, 122] false 200).WF := Or.inl (by decide)
+example : (cfgOf oRot [116, 46, 104, 60, 82, 69, 86, 62, 46, 50, 48, 50, 54, 46, 108, 111, 103, 46, 103, 122] false 200 true).WF := Or.inl (by decide)
 
 end Nsq.Props.C19Name
